@@ -4,7 +4,7 @@
 //! `zeroize` feature (subject), made observable by the build without it (control).
 
 use super::c16::{Obj, Op};
-use super::common::stream_iv;
+use super::common::{mode_data, mode_iv, stream_iv};
 use crate::ctx::Ctx;
 use crate::wl;
 use bmv_core::subj::*;
@@ -131,7 +131,7 @@ fn debug_text(ctx: &mut Ctx) {
     let mut all: Vec<(String, &'static str, String, Option<Vec<u8>>)> = Vec::new(); // (variant, kind, text, unused ks)
     for v in 0..3 {
         let key = if v == 0 { ctx.key.clone() } else { ctx.rng.bytes(ctx.cfg.key_len) };
-        let (iv, _) = if let Mk::Stream(d) = &mk { stream_iv(ctx, d.flavor, b) } else { wl::iv(&mut ctx.rng, mk.iv_len(b)) };
+        let (iv, _) = if let Mk::Stream(d) = &mk { stream_iv(ctx, d.flavor, b) } else { mode_iv(ctx, mk.iv_len(b)) };
         let nops = ctx.rng.range(0, 4);
         let ops: Vec<Op> = (0..nops).map(|_| mk.gen_op(ctx)).collect();
         let r = guard(|| {
